@@ -89,4 +89,60 @@ pub fn main() {
     println!("CRC16B 4 {}", s);
     let s: String = (0..=255u8).map(|b| row(8, move || format!("{:08x}", bp7::crc::CASTAGNOLI.checksum(&[b])))).collect();
     println!("CRC32B 8 {}", s);
+    rule_space();
+}
+
+/// VALIDATE over the block-list part of C07's finite rule space: context (administrative record?, anonymous source?, creation time
+/// zero?) x every list of up to 3 blocks drawn from {payload, previous node, bundle age, hop count, unknown} x block numbers {1,2,3} x
+/// status-report flag on/off.  Row order: context c = 4*admin + 2*anon + time0 (0..7), then the lists in order of length and, within a
+/// length, lexicographically by option index o = 6*kind + 2*(number-1) + status (kind 0..4 in the order above); 27931 lists per context.
+fn rule_space() {
+    use bp7::canonical::CanonicalBlockBuilder;
+    use bp7::{Bundle, CreationTimestamp, EndpointID};
+    use std::convert::TryFrom;
+    let opt = |o: u32| -> CanonicalBlock {
+        let (kind, num, status) = (o / 6, (o % 6) / 2 + 1, o % 2);
+        let (ty, data) = match kind {
+            0 => (1u64, CanonicalData::Data(vec![0x78])),
+            1 => (6, CanonicalData::PreviousNode(EndpointID::try_from("dtn://n/").unwrap())),
+            2 => (7, CanonicalData::BundleAge(0)),
+            3 => (10, CanonicalData::HopCount(32, 0)),
+            _ => (192, CanonicalData::Unknown(vec![])),
+        };
+        CanonicalBlockBuilder::default().block_type(ty).block_number(num as u64).block_control_flags(if status == 1 { 2 } else { 0 }).data(data).build().unwrap()
+    };
+    let mut lists: Vec<Vec<u32>> = vec![vec![]];
+    for a in 0..30 {
+        lists.push(vec![a]);
+    }
+    for a in 0..30 {
+        for b in 0..30 {
+            lists.push(vec![a, b]);
+        }
+    }
+    for a in 0..30 {
+        for b in 0..30 {
+            for c in 0..30 {
+                lists.push(vec![a, b, c]);
+            }
+        }
+    }
+    let mut s = String::with_capacity(8 * lists.len());
+    for ctx in 0..8u32 {
+        let (admin, anon, time0) = (ctx & 4 != 0, ctx & 2 != 0, ctx & 1 != 0);
+        for l in &lists {
+            let blocks: Vec<CanonicalBlock> = l.iter().map(|o| opt(*o)).collect();
+            s.push_str(&row(1, move || {
+                let mut p = bp7::primary::PrimaryBlock::new();
+                p.bundle_control_flags = if admin { 2 } else { 0 };
+                p.destination = EndpointID::try_from("dtn://d/").unwrap();
+                p.source = if anon { EndpointID::none() } else { EndpointID::try_from("dtn://s/").unwrap() };
+                p.report_to = EndpointID::none();
+                p.creation_timestamp = CreationTimestamp::with_time_and_seq(if time0 { 0 } else { 1000 }, 0);
+                p.lifetime = std::time::Duration::from_millis(1000);
+                bit(Bundle::new(p, blocks).validate().is_ok()).to_string()
+            }));
+        }
+    }
+    println!("RULESPACE 1 {}", s);
 }
